@@ -184,6 +184,13 @@ func c16a(c *Ctx) {
 				t := c.term(fn, u)
 				if (t == "$0.enableLineMarkers" || t == "$0.inputFilepath") && fn.Signature.Recv() != nil && typeIs(fn.Signature.Recv().Type(), "emitter", "Emitter") {
 					vals = append(vals, u)
+					return
+				}
+				// ... wherever the emitter is reached from: a function literal that captured it,
+				// a helper that was handed it (the load of the field is what counts, not the
+				// spelling of its base)
+				if _, et, f, okF := fieldAddrOf(u.X); okF && typeIs(et, "emitter", "Emitter") && (f == "enableLineMarkers" || f == "inputFilepath") {
+					vals = append(vals, u)
 				}
 			}
 		})
@@ -512,6 +519,8 @@ func prettyAll(xs []string) []string {
 }
 
 func c16c(c *Ctx) {
+
+	c16cTokenBeforeLiteral(c)
 	// (o) format(): the token handed back for the formatted text is the token of the text
 	// itself (the one whose literal is formatted), not that of a later parameter
 	if fn := c.Fn("parser.Parser.parseFormatStringOperator"); fn != nil {
@@ -998,4 +1007,77 @@ func lastUseOrLoad(a *ssa.Alloc) ssa.Instruction {
 		}
 	}
 	return lastUse(a)
+}
+
+// c16cTokenBeforeLiteral: a token that stands for a gathered value (an operand, a case value, a
+// table entry: the token where the value starts, with its literal replaced by the gathered text)
+// is taken from the window BEFORE the value is gathered. Taken afterwards it is the token behind
+// the value, and the marker or error that uses it names that token's line.
+func c16cTokenBeforeLiteral(c *Ctx) {
+	n := 0
+	for _, fn := range c.W.FuncsOf("parser") {
+		if isTestFunc(c.W, fn) || len(fn.Blocks) == 0 {
+			continue
+		}
+		k := 0
+		instrs(fn, func(in ssa.Instruction) {
+			a, ok := in.(*ssa.Alloc)
+			if !ok || !typeIs(a.Type(), "token", "Token") || a.Referrers() == nil {
+				return
+			}
+			var copies []*ssa.UnOp     // loads of a window token stored whole into the local
+			var lits []ssa.Instruction // definitions of the values stored into its Literal
+			for _, r := range *a.Referrers() {
+				switch y := r.(type) {
+				case *ssa.Store:
+					if y.Addr != ssa.Value(a) {
+						continue
+					}
+					if ld, isLd := y.Val.(*ssa.UnOp); isLd {
+						if _, pt, f, okF := fieldAddrOf(ld.X); okF && typeIs(pt, "parser", "Parser") && strings.HasSuffix(f, "Token") {
+							copies = append(copies, ld)
+						}
+					}
+				case *ssa.FieldAddr:
+					if fieldName(y.X.Type(), y.Field) != "Literal" || y.Referrers() == nil {
+						continue
+					}
+					for _, r2 := range *y.Referrers() {
+						if st, isSt := r2.(*ssa.Store); isSt && st.Addr == ssa.Value(y) {
+							var leaves []ssa.Value
+							phiLeaves(st.Val, map[ssa.Value]bool{}, &leaves)
+							for _, lf := range leaves {
+								v := lf
+								if ex, isEx := v.(*ssa.Extract); isEx {
+									v = ex.Tuple
+								}
+								if call, isCall := v.(*ssa.Call); isCall {
+									lits = append(lits, call)
+								}
+							}
+						}
+					}
+				}
+			}
+			if len(copies) == 0 || len(lits) == 0 {
+				return
+			}
+			n++
+			for _, cp := range copies {
+				for _, lit := range lits {
+					// a call that reads nothing from the window (a terminator being appended, a
+					// Join of parts gathered by a loop in this function) gathers nothing itself
+					g := callee(lit.(ssa.CallInstruction))
+					if g == nil || !c.W.InRepo(g) || c.T(fn).purity(g) >= purReadOnly {
+						continue
+					}
+					if canReach(lit, cp) && !canReach(cp, lit) {
+						k++
+						c.Bad(fmt.Sprintf("%s/token-taken-after-its-value#%d", fn.Name(), k), c.W.Pos(cp.Pos()), fn.Name()+" takes the token for a gathered value ("+pretty(c.term(fn, cp))+") after "+g.Name()+" has consumed the value: the token is the one behind the value, so markers and errors name the wrong line")
+					}
+				}
+			}
+		})
+	}
+	c.Check(n >= 2, "token-before-literal/census", "-", fmt.Sprintf("%d tokens with a gathered literal examined", n), fmt.Sprintf("only %d tokens with a gathered literal found", n))
 }
